@@ -192,6 +192,20 @@ def corpus(tier):
         yield "func-type", "", "function ft(a:%s) return %s is begin return a; end; print isnull(ft(null));" % (t, t if t != "bytes" else "bytes")
         for t2 in types[1:4]:
             yield "func-type", "", "function ft(a:%s, b, c:%s) return %s is begin return c; end; print isnull(ft(null, 1, null));" % (t, t2, t2)
+        # a parameter the body assigns with a value of another type keeps its declaration in the saved text (typed and untyped parameters)
+        VAL = {"undefined": "null", "boolean": "true", "integer": "7", "decimal": "2.5", "complex": "ii", "string": '"s"', "bytes": 'raw("b")',
+               "tuple": 'tup(1, "a")', "table": "tab(1, 1)"}
+        for t2 in types[1:]:
+            if t2 == t:
+                continue
+            yield "func-type", "", ("function fp(p:%s, q) return string is begin w = typeof(p) + typeof(q); p = %s; q = %s; return w + typeof(p) + typeof(q); end; "
+                                    "print fp(%s, %s); print fp(%s, %s);" % (t, VAL[t2], VAL[t2], VAL[t], VAL[t], VAL[t], VAL[t]))
+            # ... and a use, ahead of the assignment, that only compiles with the declared type
+            USE = {"boolean": "str(not p)", "integer": "str(p + 1)", "decimal": "str(round(p * 2.0))", "complex": "str(imag(p))", "string": 'p + "x"', "bytes": "str(p.count())",
+                   "tuple": "str(p@1)", "table": "str(p.count())"}
+            if t in USE:
+                yield "func-type", "", ("function fu(p:%s) return string is begin w = %s; p = %s; return w + typeof(p); end; print fu(%s); print fu(%s);" % (
+                    t, USE[t], VAL[t2], VAL[t], VAL[t]))
     misc = MISC
     for m in misc:
         yield "misc", "", m
